@@ -49,6 +49,84 @@ Proof. vm_compute. reflexivity. Qed.
 Example c08_ex_mile_km : q_new StQ [1000 # 1; 1; 1] [1; 0; 0]%Z (1609344 # 1000) 0 1 == 1609344 # 1000000.
 Proof. vm_compute. reflexivity. Qed.
 
+(* ---- fixed-width storage (Rational32/64, Rational, i8..i64, u8..u64, isize, usize) ----
+   Model.Fixed evaluates the same three conversion functions over num-rational's Ratio<iN> with every machine
+   operation checked against the type's range [lo, hi]; `None` = the implementation panics.  For EVERY width,
+   unit, base-unit set and value: a conversion that returns ("no intermediate overflows") returns the exact
+   rational result of the formula -- truncated toward zero, and inside the type's range, for integer storage. *)
+From UomV Require Import Model.Fixed Proofs.FixedP.
+
+Theorem c08_fixed_rational_new_exact :
+  forall lo hi U d k c v p,
+    q_new (StQw lo hi) (map Some U) d (Some k) (Some c) (Some v) = Some p ->
+    wfs U -> wf k -> wf c -> wf v ->
+    wf p /\ qv p == (qv v + qv c) * qv k / pi (combine (map qv U) d).
+Proof. intros lo hi U d k c v p. exact (new_rat_w lo hi U d k c v p). Qed.
+
+Theorem c08_fixed_rational_get_exact :
+  forall lo hi U d k c v p,
+    q_get (StQw lo hi) (map Some U) d (Some k) (Some c) (Some v) = Some p ->
+    wfs U -> wf k -> wf c -> wf v ->
+    wf p /\ qv p == qv v * pi (combine (map qv U) d) / qv k - qv c.
+Proof. intros lo hi U d k c v p. exact (get_rat_w lo hi U d k c v p). Qed.
+
+Theorem c08_fixed_rational_roundtrip :
+  forall lo hi U d k c v s p,
+    q_new (StQw lo hi) (map Some U) d (Some k) (Some c) (Some v) = Some s ->
+    q_get (StQw lo hi) (map Some U) d (Some k) (Some c) (Some s) = Some p ->
+    wfs U -> wf k -> wf c -> wf v -> nonzero (combine (map qv U) d) -> ~ qv k == 0 ->
+    qv p == qv v.
+Proof. intros lo hi U d k c v s p. exact (roundtrip_rat_w lo hi U d k c v s p). Qed.
+
+Theorem c08_fixed_integer_new_trunc :
+  forall lo hi U d k c (z r : Z),
+    q_new (StZw lo hi) (map Some U) d (Some k) (Some c) (Some z) = Some r ->
+    wfs U -> wf k -> wf c ->
+    r = q_to_integer ((inject_Z z + qv c) * qv k / pi (combine (map qv U) d)) /\ (lo <= r <= hi)%Z.
+Proof. intros lo hi U d k c z r. exact (new_int_w lo hi U d k c z r). Qed.
+
+Theorem c08_fixed_integer_get_trunc :
+  forall lo hi U d k c (z r : Z),
+    q_get (StZw lo hi) (map Some U) d (Some k) (Some c) (Some z) = Some r ->
+    wfs U -> wf k -> wf c ->
+    r = q_to_integer (inject_Z z * pi (combine (map qv U) d) / qv k - qv c) /\ (lo <= r <= hi)%Z.
+Proof. intros lo hi U d k c z r. exact (get_int_w lo hi U d k c z r). Qed.
+
+(* re-basing (operands in two base-unit sets) at fixed width: the physical magnitude is preserved *)
+Theorem c08_fixed_rational_rebase_exact :
+  forall lo hi Ul Ur d v p,
+    rebase (StQw lo hi) true (map Some Ul) (map Some Ur) d (Some v) = Some p ->
+    length Ul = length Ur -> wfs Ul -> wfs Ur -> wf v ->
+    wf p /\ qv p * pi (combine (map qv Ul) d) == qv v * pi (combine (map qv Ur) d).
+Proof. intros lo hi Ul Ur d v p. exact (change_base_w lo hi Ul Ur d v p). Qed.
+
+Theorem c08_fixed_integer_rebase_trunc :
+  forall lo hi Ul Ur d (z r : Z),
+    rebase (StZw lo hi) true (map Some Ul) (map Some Ur) d (Some z) = Some r ->
+    length Ul = length Ur -> wfs Ul -> wfs Ur -> nonzero (combine (map qv Ul) d) ->
+    r = q_to_integer (inject_Z z * pi (combine (map qv Ur) d) / pi (combine (map qv Ul) d)) /\ (lo <= r <= hi)%Z.
+Proof. intros lo hi Ul Ur d z r. exact (rebase_int_w lo hi Ul Ur d z r). Qed.
+
+(* the order and equality tests of Ratio<iN> that choose the branches are exact at every width *)
+Theorem c08_fixed_comparison_exact :
+  forall x y, wf x -> wf y -> rcmp x y = Qcompare (qv x) (qv y).
+Proof. intros x y. exact (rcmp_ok x y). Qed.
+
+(* non-vacuity at i64 / Ratio<i64>: 5 miles with a kilometre base unit; 7 feet as an i32; and a case that
+   does overflow (10^12 parsec-sized coefficient squared) is reported as such, not as a value *)
+Example c08_ex_fixed_mile :
+  q_new (StQw (-(2^63)) (2^63-1)) [Some (1000, 1); Some (1, 1)]%Z [1; 0]%Z (Some (201168, 125)) (Some (0, 1)) (Some (5, 1))%Z
+  = Some (25146, 3125)%Z.
+Proof. vm_compute. reflexivity. Qed.
+Example c08_ex_fixed_feet :
+  q_new (StZw (-(2^31)) (2^31-1)) [Some (1, 1)]%Z [1]%Z (Some (381, 1250)) (Some (0, 1)) (Some (-7))%Z = Some (-2)%Z.
+Proof. vm_compute. reflexivity. Qed.
+Example c08_ex_fixed_overflow :
+  q_new (StQw (-(2^63)) (2^63-1)) [Some (1, 1)]%Z [2]%Z (Some (30856775814913673, 1)) (Some (0, 1)) (Some (1000, 1))%Z = None
+  /\ q_new (StQw (-(2^63)) (2^63-1)) [Some (1, 1)]%Z [2]%Z (Some (30856775814913673, 1)) (Some (0, 1)) (Some (100, 1))%Z
+     = Some (3085677581491367300, 1)%Z.
+Proof. vm_compute. split; reflexivity. Qed.
+
 (* the plumbing of the exact storage classes that the model's StZ / StQ transcribe (Gen/StorageSrc.v is regenerated from src/lib.rs):
    integers and big integers convert through Ratio<V> and return to_integer() (truncation toward zero); rationals are their own
    factor type; the big classes raise to a negative power by recip() then pow *)
